@@ -28,6 +28,7 @@ Inductive cmp := Ge | Le | Gt | Lt | Eq | Ne.
 
 Inductive filt :=
 | FCmp (p : prop) (c : cmp) (k : fval)
+| FCmpP (p : prop) (c : cmp) (q : prop)          (* a property compared with another property *)
 | FOneOf (p : prop) (vs : list fval)
 | FHasAny (name : N) (vs : list N)
 | FHasAll (name : N) (vs : list N)
@@ -76,11 +77,36 @@ Definition eval_cmp (env : fenv) (p : prop) (c : cmp) (k : fval) (i : ivl) : boo
     end
   end.
 
+(* "property <op> property" for the time-valued properties: start / end are integers, a duration
+   is the exact rational (end-start)/scale or +inf; values are (numerator, denominator > 0),
+   None = +inf; compared by cross-multiplication (inf = inf, as for floats).  A custom field on
+   either side is outside this model (the comparison is then False here; the generators never
+   produce it). *)
+Definition prop_num (p : prop) (i : ivl) : option (option (Z * Z)) :=
+  match p with
+  | PStart => Some (Some (fstart i, 1))
+  | PEnd => Some (Some (fend i, 1))
+  | PDur scale => match st i, en i with
+                  | Some s, Some e => Some (Some (e - s, scale))
+                  | _, _ => Some None
+                  end
+  | PField _ => None
+  end.
+Definition eval_cmpp (p : prop) (c : cmp) (q : prop) (i : ivl) : bool :=
+  match prop_num p i, prop_num q i with
+  | Some (Some (x, dx)), Some (Some (y, dy)) => cmpZ c (x * dy) (y * dx)
+  | Some None, Some (Some _) => match c with Ge | Gt | Ne => true | _ => false end
+  | Some (Some _), Some None => match c with Le | Lt | Ne => true | _ => false end
+  | Some None, Some None => match c with Ge | Le | Eq => true | _ => false end
+  | _, _ => false
+  end.
+
 Definition set_of (v : fval) : list N := match v with VSet l => l | _ => [] end.
 
 Fixpoint feval (env : fenv) (f : filt) (i : ivl) : bool :=
   match f with
   | FCmp p c k => eval_cmp env p c k i
+  | FCmpP p c q => eval_cmpp p c q i
   | FOneOf p vs => existsb (fun v => eval_cmp env p Eq v i) vs
   | FHasAny name vs => existsb (fun v => memN v (set_of (field_of env i name))) vs
   | FHasAll name vs => forallb (fun v => memN v (set_of (field_of env i name))) vs
